@@ -150,7 +150,7 @@ def config_case(draw, bases=None, generated=True, min_end=None, sampling_focus=F
             edits.append(("FinalTimeEndOfRunEventHandler", "end_of_run_time",
                           repr(round(draw(st.floats(min_end[0], min_end[1])), 4))))
         if not sampling_focus and draw(st.integers(0, 3)) == 0:
-            tie = draw(st.sampled_from([0.5, 0.25, 1.0]))
+            tie = draw(st.sampled_from([0.5, 0.25, 1.0, 0.3]))
             edits = [(sec, opt, repr(tie) if opt in ("chain_time", "chain_length") else val) for sec, opt, val in edits]
         case = {"base": G7, "g7_N": N, "edits": [list(e) for e in edits], "seed": draw(st.integers(0, 2 ** 31)),
                 "events": draw(st.integers(max_events[0], max_events[1]))}
@@ -230,7 +230,7 @@ def config_case(draw, bases=None, generated=True, min_end=None, sampling_focus=F
         if sections_with(text, "chain_length") and not sampling_focus and draw(st.integers(0, 3)) == 0:
             # commensurate periods: mode switches and end-of-chain events fall on exactly the same times (legal; both
             # orders of simultaneous events are valid histories)
-            tie = draw(st.sampled_from([0.5, 0.25, 1.0]))
+            tie = draw(st.sampled_from([0.5, 0.25, 1.0, 0.3]))
             edits = [e for e in edits if e[1] not in ("chain_time", "chain_length")]
             for sec, val in sections_with(text, "chain_time") + sections_with(text, "chain_length"):
                 edits.append((sec, "chain_time" if "EndOfChain" in sec else "chain_length", repr(tie)))
